@@ -113,3 +113,20 @@ def norm_get_main(title):
     'Main:' prefix is dropped"""
     t = title.replace("_", " ")
     return t[5:] if t.startswith("Main:") else t
+
+
+def add_newline(text):
+    """MediaWiki: an expansion starting with a list / table marker gets a newline prepended"""
+    return "\n" + text if text.startswith(("*", ";", ":", "#", "{|")) else text
+
+
+def if_spec(args):
+    """#if: the trimmed expanded first argument selects the (trimmed, expanded) 2nd or 3rd; missing => ''"""
+    c = expander(args[0]).strip() if len(args) > 0 else ""
+    return arg(args, 1, "") if c != "" else arg(args, 2, "")
+
+
+def ifeq_spec(args):
+    a = expander(args[0]).strip() if len(args) > 0 else ""
+    b = expander(args[1]).strip() if len(args) > 1 else ""
+    return arg(args, 2, "") if a == b else arg(args, 3, "")
